@@ -35,12 +35,32 @@ func recvStruct(f *ssa.Function) *types.Struct {
 }
 
 // isWriteCall: a call that writes to an io.Writer held by the receiver.
-func isWriterWrite(ci ssa.CallInstruction) bool {
+func isWriterWrite(c *chk.Ctx, ci ssa.CallInstruction) bool {
 	cc := ci.Common()
 	if cc.IsInvoke() && cc.Method.Name() == "Write" {
 		return true
 	}
-	return ir.IsCallTo(cc, "io.WriteString")
+	if ir.IsCallTo(cc, "io.WriteString") {
+		return true
+	}
+	// a private one-write wrapper (`func (o outlet) write(p []byte) error { _, err := o.wc.Write(p);
+	// return err }`): straight-line, exactly one write, of its own parameter
+	h := cc.StaticCallee()
+	if h == nil || !c.P.InRepo[h] || ir.Exported(h) || len(h.Blocks) != 1 {
+		return false
+	}
+	n, own := 0, false
+	ir.Calls(h, func(c2 ssa.CallInstruction) {
+		k := c2.Common()
+		if (k.IsInvoke() && k.Method.Name() == "Write") || ir.IsCallTo(k, "io.WriteString") {
+			n++
+			data := k.Args[len(k.Args)-1]
+			if _, isParam := ir.NormCell(data).(*ssa.Parameter); isParam {
+				own = true
+			}
+		}
+	})
+	return n == 1 && own
 }
 
 // ---------------------------------------------------------------------------
@@ -75,7 +95,7 @@ func ruleSplitGuard(c *chk.Ctx) {
 		n++
 		var writes []ssa.CallInstruction
 		ir.Calls(f, func(ci ssa.CallInstruction) {
-			if isWriterWrite(ci) {
+			if isWriterWrite(c, ci) {
 				writes = append(writes, ci)
 			}
 		})
@@ -303,7 +323,7 @@ func ruleHeaderAgreement(c *chk.Ctx) {
 					}
 				}
 			}
-			if isWriterWrite(ci) {
+			if isWriterWrite(c, ci) {
 				nWrites++
 			}
 		})
@@ -543,6 +563,9 @@ func ruleBoundedLength(c *chk.Ctx) {
 				out = append(out, successConds(g)...)
 			}
 		})
+		// (a refusal recorded in an error variable and tested once: past the test, the branch
+		// that recorded nothing was taken)
+		out = append(out, ir.ImpliedByPhiTests(out, nonNilValue)...)
 		return out
 	}
 	// bounds at an instruction in every calling context (through the package's private functions)
@@ -676,15 +699,25 @@ func ruleLengthRequired(c *chk.Ctx) {
 			if len(r.Results) == 0 || ir.IsNilConst(ir.ReturnResult(r, len(r.Results)-1)) {
 				continue
 			}
-			for _, cd := range ir.CondsAt(r.Block()) {
-				if x, eq, ok := ir.NilCompare(cd.V); ok && ir.IsExtractOf(x, parse, 1) && eq != cd.Truth {
-					okErr = true
+			// where the returned error is produced: at the return, or — an error variable
+			// returned by a shared exit — where a non-nil value is assigned to it
+			origins := []*ssa.BasicBlock{r.Block()}
+			if phi, isPhi := ir.ReturnResult(r, len(r.Results)-1).(*ssa.Phi); isPhi {
+				for i, e := range phi.Edges {
+					if !ir.IsNilConst(e) && nonNilValue(e) {
+						origins = append(origins, phi.Block().Preds[i])
+					}
 				}
 			}
-			// also: reached from the err != nil edge through a shared block
-			if len(r.Block().Preds) >= 1 {
-				for _, p := range r.Block().Preds {
-					for _, cd := range ir.EdgeConds(p, r.Block()) {
+			for _, ob := range origins {
+				for _, cd := range ir.CondsAt(ob) {
+					if x, eq, ok := ir.NilCompare(cd.V); ok && ir.IsExtractOf(x, parse, 1) && eq != cd.Truth {
+						okErr = true
+					}
+				}
+				// also: reached from the err != nil edge through a shared block
+				for _, p := range ob.Preds {
+					for _, cd := range ir.EdgeConds(p, ob) {
 						if x, eq, ok := ir.NilCompare(cd.V); ok && ir.IsExtractOf(x, parse, 1) && eq != cd.Truth {
 							okErr = true
 						}
@@ -1143,6 +1176,16 @@ func ruleFullReads(c *chk.Ctx) {
 							okErr = true
 						}
 					}
+					// (one error variable for both ways of reading the body, tested once: the value
+					// returned on its != nil edge, with this read's error among what it can hold)
+					ev := ir.ReturnResult(r, 1)
+					if ir.ProvesNonNil(ir.CondsAt(r.Block()), func(x ssa.Value) bool { return x == ev }) {
+						for _, src := range c.P.Sources(ev) {
+							if ir.IsExtractOf(src, call, 1) {
+								okErr = true
+							}
+						}
+					}
 				}
 				c.Check(okErr, "PAIR.fullread", f, "short body is an error", call.Pos(), "the body is read with a full-read primitive whose error is returned", "the error of the full read is not returned: a truncated body would be delivered as a record")
 				return
@@ -1424,6 +1467,24 @@ func ruleRecordFilledByFullRead(c *chk.Ctx) {
 							}
 							if i < len(p2.Edges) && p2.Edges[i] == x && knownNil(p2) {
 								return true
+							}
+							// (the error may have been replaced by a sentinel on the way:
+							// `if err == io.EOF && n != 0 { err = io.ErrUnexpectedEOF }` — a nil
+							// outcome can only be the original error)
+							if i < len(p2.Edges) && knownNil(p2) {
+								if inner, isInner := p2.Edges[i].(*ssa.Phi); isInner {
+									has, rest := false, true
+									for _, ie := range inner.Edges {
+										if ie == x {
+											has = true
+										} else if !nonNilValue(ie) {
+											rest = false
+										}
+									}
+									if has && rest {
+										return true
+									}
+								}
 							}
 						}
 						return false
